@@ -12,6 +12,9 @@ fn main() {
     if args[1] == "replay" {
         std::process::exit(engines::replay_file(&args[2]));
     }
+    if args[1] == "det-child" {
+        std::process::exit(engines::determinism::child(&args[2..]));
+    }
     if args[1] == "crash-worker" {
         std::process::exit(engines::worker_entry(&args[2..]));
     }
